@@ -62,6 +62,9 @@ def discharge(ob: Obligation, tier: str):
     accepted on its own word."""
     timeout = 10000 if tier == "quick" else 60000
     cli_t = 10 if tier == "quick" else 40
+    cli_cache: dict = {}
+    portfolio_ran = False
+    pre_dump = None
     if ob.kind == "prune":
         # the in-process solver already answered `unsat` when the path was pruned; only the second
         # opinions are asked here (a `sat` from one of them is a disagreement = checker error)
@@ -71,18 +74,88 @@ def discharge(ob: Obligation, tier: str):
         s.add(z3.Not(ob.goal))
         r, ms = "unsat", 0.0
     else:
-        s, r, ms = _solver_check(ob.pc, ob.goal, timeout)
+        # the dump taken before the check and the one taken after it differ textually (sharing of
+        # sub-terms); the command-line solvers' heuristics are sensitive to that, so both are offered
+        s0 = z3.Solver()
+        for f in ob.pc:
+            s0.add(f)
+        s0.add(z3.Not(ob.goal))
+        pre_dump = s0.to_smt2()
+        # a short first attempt; when it is not enough, the full-budget attempt runs while the two
+        # command-line solvers work on the dump in parallel (portfolio): a hard obligation costs the
+        # maximum of the budgets instead of their sum, and the in-process attempt is interrupted as
+        # soon as a command-line solver has decided
+        s, r, ms = _solver_check(ob.pc, ob.goal, min(2000, timeout))
+        if r == "unknown":
+            from concurrent.futures import ThreadPoolExecutor
+            s = z3.Solver()
+            s.set("timeout", timeout)
+            s.set("max_memory", 6000)
+            for f in ob.pc:
+                s.add(f)
+            s.add(z3.Not(ob.goal))
+
+            class _Cancel:
+                deadline = None
+            cancel = _Cancel()
+
+            def run_cli(tool, dump, interrupt):
+                try:
+                    res, ms2 = _cli_check(dump, tool, cli_t, cancel)
+                except Exception:
+                    res, ms2 = "unknown", 0.0
+                if res in ("sat", "unsat"):
+                    # the other solver keeps a short grace period (its verdict is only the disagreement check)
+                    if cancel.deadline is None:
+                        cancel.deadline = time.time() + 1.5
+                    if interrupt:
+                        try:
+                            s.ctx.interrupt()
+                        except Exception:
+                            pass
+                return res, ms2
+            with ThreadPoolExecutor(max_workers=2) as ex:
+                futs = {tool: ex.submit(run_cli, tool, pre_dump, True) for tool in ("z3", "cvc5")}
+                t0 = time.time()
+                try:
+                    r = str(s.check())
+                except z3.Z3Exception:
+                    r = "unknown"
+                ms += (time.time() - t0) * 1000
+                for tool, fu in futs.items():
+                    res, ms2 = fu.result()
+                    ms += ms2
+                    cli_cache[tool] = res
+            portfolio_ran = True
+            if all(v == "unknown" for v in cli_cache.values()) and r == "unknown":
+                post = s.to_smt2()
+                if post != pre_dump:
+                    cancel.deadline = None
+                    with ThreadPoolExecutor(max_workers=2) as ex:
+                        futs = {tool: ex.submit(run_cli, tool, post, False) for tool in ("z3", "cvc5")}
+                        for tool, fu in futs.items():
+                            res, ms2 = fu.result()
+                            ms += ms2
+                            cli_cache[tool] = res
     ob.ms = ms
     ob.backend = "z3-5.1.0(api)"
     ob.confirmed = None
     smt2 = s.to_smt2()
+    dumps = [smt2] if ob.kind == "prune" or pre_dump == smt2 else [pre_dump, smt2]
 
     def second(tool):
-        try:
-            res, ms2 = _cli_check(smt2, tool, cli_t)
-        except Exception:
-            res, ms2 = "unknown", 0.0
-        ob.ms += ms2
+        if tool in cli_cache:
+            return cli_cache[tool]
+        res = "unknown"
+        for d in dumps:
+            try:
+                res, ms2 = _cli_check(d, tool, cli_t)
+            except Exception:
+                res, ms2 = "unknown", 0.0
+            ob.ms += ms2
+            if res in ("sat", "unsat"):
+                break
+        cli_cache[tool] = res
         return res
     if r == "unsat":
         r2 = second("z3")
@@ -121,7 +194,7 @@ def discharge(ob: Obligation, tier: str):
             ob.model = None
         return
     # unknown: second opinions
-    for tool, label in (("cvc5", "cvc5-1.0.3(cli)"), ("z3", "z3-4.8.12(cli)")):
+    for tool, label in (("z3", "z3-4.8.12(cli)"), ("cvc5", "cvc5-1.0.3(cli)")):
         res = second(tool)
         if res == "unsat":
             other = second("z3" if tool == "cvc5" else "cvc5")
@@ -137,7 +210,68 @@ def discharge(ob: Obligation, tier: str):
             ob.status = "refuted"
             ob.backend = label
             return
+    # still undecided: retry with fewer hypotheses (those connected to the goal through shared
+    # uninterpreted symbols, 1 then 2 steps).  Dropping hypotheses is sound for `unsat`; a `sat`
+    # of a sliced query means nothing and is ignored.
+    for depth in (1, 2):
+        pc2 = _slice(ob.pc, ob.goal, depth)
+        if len(pc2) >= len(ob.pc):
+            break
+        s2, r2, ms2 = _solver_check(pc2, ob.goal, timeout)
+        ob.ms += ms2
+        if r2 != "unsat":
+            continue
+        dumps[:] = [s2.to_smt2()]
+        cli_cache.clear()
+        for tool, label in (("z3", "z3-4.8.12(cli)"), ("cvc5", "cvc5-1.0.3(cli)")):
+            if second(tool) == "unsat":
+                ob.status, ob.confirmed = "proved", label
+                ob.backend = f"z3-5.1.0(api)+{label} [hypotheses sliced to {len(pc2)}/{len(ob.pc)}, depth {depth}]"
+                return
+        ob.status, ob.confirmed = "proved", "unconfirmed"
+        ob.backend = f"z3-5.1.0(api) (second solvers: timeout) [hypotheses sliced to {len(pc2)}/{len(ob.pc)}, depth {depth}]"
+        return
     ob.status = "unknown"
+
+
+def _symbols(f, cache={}):
+    k = f.get_id()
+    if k in cache:
+        return cache[k]
+    out = set()
+    seen = set()
+    stack = [f]
+    while stack:
+        t = stack.pop()
+        i = t.get_id()
+        if i in seen:
+            continue
+        seen.add(i)
+        if z3.is_quantifier(t):
+            stack.append(t.body())
+        elif z3.is_app(t):
+            d = t.decl()
+            if d.kind() == z3.Z3_OP_UNINTERPRETED:
+                out.add(d.name())
+            stack.extend(t.children())
+    cache[k] = out
+    return out
+
+
+def _slice(pc, goal, depth):
+    syms = set(_symbols(goal))
+    keep = [False] * len(pc)
+    fs = [_symbols(f) for f in pc]
+    for _ in range(depth):
+        new = set()
+        for i, f in enumerate(pc):
+            if not keep[i] and fs[i] & syms:
+                keep[i] = True
+                new |= fs[i]
+        if not new - syms:
+            break
+        syms |= new
+    return [f for i, f in enumerate(pc) if keep[i]]
 
 
 def _abs_name(t):
